@@ -53,6 +53,7 @@ class Run:
         self.trusted = []
         self.units = {}
         self.selftest = None
+        self.deferred = []     # rules that could not be evaluated: reported (exit 2) unless a violation is found anyway
         self.t0 = time.time()
 
     # -- recording ---------------------------------------------------------
@@ -69,6 +70,16 @@ class Run:
             line = getattr(node, 'lineno', None)
         self.obs.append(Ob(rule, key, bool(ok), msg, rel, line, nontrivial, detail))
         return bool(ok)
+
+    def attempt(self, fn, *a, **k):
+        """Run one rule; if it cannot be evaluated on this tree, go on with the others and report the failure at the end
+        (a violation another rule finds is the more useful report)."""
+        from .model import AnalysisError
+        try:
+            return fn(*a, **k)
+        except AnalysisError as e:
+            self.deferred.append('%s: %s' % (getattr(fn, '__name__', 'rule'), e))
+            return None
 
     def note(self, rule, msg, fn=None, node=None):
         where = ''
@@ -143,6 +154,12 @@ class Run:
         code = 0
         if viol:
             code = 1
+            for d in self.deferred:
+                out.append('  not evaluated: %s' % d)
+        elif self.deferred:
+            for d in self.deferred:
+                out.append('ANALYSIS-ERROR property=%s %s' % (self.pid, d))
+            code = 2
         elif bad_floor:
             for r, c, m in bad_floor:
                 out.append('ANALYSIS-ERROR property=%s rule %s evaluated %d instances, fewer than the %d confirmed by hand; '
